@@ -90,6 +90,11 @@ theorem lex_string_continuations (ps : List Piece) (h : ∀ p ∈ ps, p.ok) :
     parseStr (.str (quote (piecesText ps))) = .ok (piecesContent ps) := by
   simp only [parseStr]; rw [unquote_pieces ps h]
 
+/-- Strings in which no backslash stands directly in front of a line break are reproduced exactly. -/
+theorem lex_string_plain (s : Str) (h1 : NoOcc ['\\', '\r', '\n'] s) (h2 : NoOcc ['\\', '\n'] s) :
+    parseStr (.str (quote s)) = .ok s :=
+  parseStr_quote (clean_of_noOcc s h1 h2)
+
 /-- Keyword case: a setting acts through the ASCII-lower-cased key only (top level, inside a module,
 data type names). -/
 theorem lex_key_case (st : St) (s : Setting) (key' : Str) (h : lower key' = lower s.key) :
